@@ -189,6 +189,10 @@ class Elab:
             fe = self.expr(a)
             if kind == "int":
                 fe = ("int", self.const_value(fe))
+            elif fe[0] == "int":
+                # an int given for a Signal parameter is a signal of compiler-chosen type inside the body
+                # (as `Signal p = 2;` would be), not a bare integer: its type is left open
+                fe = ("lit", None, fe)
             sc[pn] = fe
         self.scopes.append(sc)
         self.stmts(body, local=True)
